@@ -187,7 +187,7 @@ def csv_text(f, v):
     for r in f['rules']:
         c = r['cond']
         if c['k'] == 'atom' and c['a'] == 'A1':
-            pat = ['ALFA', 'AL.A', 'alfa', '\\bALFA\\b'][v.a1 % 4]
+            pat = ['ALFA', 'AL.A', '(ALFA|ALFB)', '\\bALFA\\b', 'alfa', '(?:AL)FA'][v.a1 % 6]
         elif c['k'] == 'atom':
             pat = 'STORE[amount>100]'
         else:
